@@ -24,13 +24,22 @@ Definition counts_eqb (names : list positive) (model : list positive) (real : li
 Definition get (real : list (positive * nat)) (n : positive) : nat :=
   match List.find (fun kv => Pos.eqb (fst kv) n) real with Some kv => snd kv | None => 0%nat end.
 
+(* a materialization directly over a leaf payload (through transfers / materializations only) caches that very payload
+   object: iterating the result iterates the leaf's own sequence, which is not a re-evaluation *)
+Fixpoint direct_payload (t : tree) : bool :=
+  match t with
+  | Leaf _ _ _ _ _ => true
+  | Xfer _ t' | Mat _ t' => direct_payload t'
+  | _ => false
+  end.
+
 (* leaf occurrences with a flag: does an eager operation (sort, deduplication, materialization) sit above it? *)
 Fixpoint leaves_under (eager : bool) (t : tree) : list (positive * bool) :=
   match t with
   | Leaf n _ _ _ _ => [(n, eager)]
   | Un o t' => leaves_under (eager || match o with Sort _ | Dedup => true | _ => false end) t'
   | Bin _ l r => leaves_under eager l ++ leaves_under eager r
-  | Mat _ t' => leaves_under true t'
+  | Mat _ t' => leaves_under (eager || negb (direct_payload t')) t'
   | Xfer _ t' | SelM _ _ t' => leaves_under eager t'
   end.
 (* leaves all of whose occurrences are consumed by an eager operation: never touched again after execute() *)
